@@ -91,6 +91,17 @@ func init() {
 					r.skipRule("C33.deposits", name+"#skip", fn, res.Header, ap, "skipSwept ∧ swept", `^\+P5$`, `^-\(call:time\.Time\.Unix\(.*\.SweptAt\) == const:0\)$|^-\(const:0 == call:time\.Time\.Unix\(.*\.SweptAt\)\)$`)
 					req := r.PkgConst("C33.deposits", "pkg/tbtc", "DepositSweepRequiredFundingTxConfirmations")
 					r.skipRule("C33.deposits", name+"#skip", fn, res.Header, ap, "skipUnconfirmed ∧ confirmations < required", `^\+P6$`, `^\+\(invoke:pkg/bitcoin\.Chain\.GetTransactionConfirmations\(.*\)#0 < const:`+req+`\)$`)
+					// the two skip tests cannot be bypassed: the block testing the skip flag
+					// lies on every path of an iteration that reaches the append
+					for _, flag := range []string{"P5", "P6"} {
+						gate := false
+						for _, b := range fn.Blocks {
+							if ifi, isIf := b.Instrs[len(b.Instrs)-1].(*ssa.If); isIf && Desc(ifi.Cond) == flag && dominates(res.Header, b) && dominates(b, ap.Block()) {
+								gate = true
+							}
+						}
+						r.Cond(gate, "C33.deposits", name+"#skip-not-bypassed/"+flag, ap.Pos(), "every path of an iteration to the append passes the test of the skip flag "+flag+" (no branch — e.g. a failed confirmations query — goes around it)")
+					}
 					// sorted before the loop
 					sorts := Sites(fn, `^sort\.SliceStable$`, false)
 					okSort := false
